@@ -20,19 +20,57 @@ RULE = ("`python -m jasm.main` is run in a scratch working directory for rule/in
         "in all four mode combinations; in 30 % of the comparisons the API is asked twice on one matcher object and the command must agree with the repeated answer.")
 FLOOR = {"quick": 60, "thorough": 800}
 ANCHOR_HINTS = ["main.py", "parse_arguments", "logging_config", "matched_observers"]
-REQUIRED_EVENTS = ["cli_runs_compared", "macro_order_probes", "repeated_address_probes"]
+REQUIRED_EVENTS = ["cli_runs_compared", "macro_order_probes", "repeated_address_probes", "stream_input_probes"]
 
 MATCHED = re.compile(r" - INFO - Matched address: (.*)$")
 
 
-def run_cli(ws, args, cwd, path=None):
+def run_cli(ws, args, cwd, path=None, stdin_text=None):
     env = harness.child_env()
     if path is not None:
         env["PATH"] = path
     try:
-        return subprocess.run([harness.PY, "-m", "jasm.main"] + args, cwd=cwd, env=env, capture_output=True, text=True, timeout=180)
+        return subprocess.run([harness.PY, "-m", "jasm.main"] + args, cwd=cwd, env=env, capture_output=True, text=True, timeout=180, input=stdin_text)
     except subprocess.TimeoutExpired:
         return None
+
+
+def stream_input_probe(ctx, ws, cwd, rule_path, listing_text, all_matches):
+    """The listing arrives through something that is not a regular file: `objdump -d x | jasm -s /dev/stdin` and a named pipe given
+    to the API. Both report what the same text in a regular file reports."""
+    import threading
+    lp = ws.write("stream_ref.s", listing_text)
+    search = "all" if all_matches else "first"
+    ref = real.match(rule_path, lp, ret="list", search=search, only_addr=True)
+    args = ["-p", rule_path, "-s", "/dev/stdin", "--return_only_address"] + (["--all-matches"] if all_matches else [])
+    p = run_cli(ws, args, cwd, stdin_text=listing_text)
+    fifo = ws.path("listing.fifo")
+    if os.path.exists(fifo):
+        os.remove(fifo)
+    os.mkfifo(fifo)
+
+    def feed():
+        with open(fifo, "w") as f:
+            f.write(listing_text)
+    t = threading.Thread(target=feed, daemon=True)
+    t.start()
+    api = real.match(rule_path, fifo, ret="list", search=search, only_addr=True)
+    t.join(timeout=10)
+    ctx.ran(3)
+    ctx.event("stream_input_probes")
+    ctx.case(("stream-input", open(rule_path).read(), all_matches), True, stratum="input through a pipe")
+    case = {"argv": args, "rule": open(rule_path).read(), "input_text": listing_text, "macro_files": [], "input_b64": None, "stream_input": True}
+    if ref[0] != "ok":
+        return
+    if api[0] != "ok" or list(api[1]) != list(ref[1]):
+        ctx.disagreement(case, f"the API reading the listing from a named pipe returns {str(api[1:2])[:120]}, from a regular file {str(ref[1])[:120]}")
+        return
+    if p is None or p.returncode != 0:
+        ctx.disagreement(case, f"`jasm -s /dev/stdin` fed by a pipe exits {None if p is None else p.returncode}: {'' if p is None else p.stderr[-300:]!r}")
+        return
+    addrs, result = parse_stderr(p.stderr)
+    if result != bool(ref[1]) or addrs != list(ref[1]):
+        ctx.disagreement(case, f"`jasm -s /dev/stdin` fed by a pipe logs RESULT {result} and addresses {addrs[:5]}; the same text in a file gives {list(ref[1])[:5]}")
 
 
 def parse_stderr(err: str):
@@ -215,6 +253,10 @@ def probe_cases(ctx, ws, cwd, asm0, which, part=0, nparts=1):
         finally:
             os.chdir(here)
         lp = ws.write("reloc.s", RELOC)
+        for pat in (["push", "mov"], ["zzz"]):
+            rp = ws.write("probe_rule_s.yaml", real.dump_rule({"pattern": pat}))
+            for am in (False, True):
+                stream_input_probe(ctx, ws, cwd, rp, RELOC, am)
         for pat in (["push", "mov"], [{"push": ["%rbp"]}], ["ret"], ["mov", "ret"]):
             rp = ws.write("probe_rule.yaml", real.dump_rule({"pattern": pat}))
             for am in (False, True):
@@ -304,6 +346,9 @@ def replay(ctx, case):
     ws = real.Workspace()
     cwd = ws.path("cwd")
     os.makedirs(cwd, exist_ok=True)
+    if case.get("stream_input"):
+        rp = ws.write("rule.yaml", case["rule"])
+        return stream_input_probe(ctx, ws, cwd, rp, case["input_text"], "--all-matches" in case["argv"])
     if not case.get("rule"):
         p = run_cli(ws, case["argv"], cwd)
         if p is not None and p.returncode == 0:
